@@ -1,3 +1,7 @@
 import Geo.Props.C11
 open Geo
-#print axioms C11_placeholder
+#print axioms T11_closed_form_line
+#print axioms T11_closed_form_from_point
+#print axioms T11_harmonic_construction
+#print axioms T11_symmetries
+#print axioms T11_harmonic_param
